@@ -35,6 +35,76 @@ CHECKS["C19"] = ("exploration",
   "All 256 single-byte and all 65536 two-byte names (and comments) with the language-encoding flag set and clear are placed in generated archives and read through the seekable reader, the streaming reader and the stream metadata; random byte strings up to 64 KiB incl. overlong/surrogate/truncated UTF-8; arbitrary Rust strings through every entry-creating writer call (incl. the encryption option) with the stored bytes checked by the independent parser.",
   "CP437 table generated from CPython (regenerated and compared in setup); from_utf8_lossy is the UTF-8 oracle, cross-checked against CPython's 'replace' decoder on 2000 strings per run.",
   "DESIGN.md §4 C19")
+CHECKS["C04"] = ("exploration",
+  "exhaustive single-bit corruption of seed archives + proptest multi-byte/truncation/swap damage, judged by an invariant with an independent CRC-32 (no model of the data needed)",
+  "Every single-bit flip inside every entry's data region and central CRC field of 10 small seed archives (all methods, ZipCrypto, AE-1/AE-2, reference-built and crate-written) is read through the seekable and the streaming reader with caller-buffer schedules incl. zero-length reads; plus random multi-byte damage, truncated payloads and swapped payloads. Invariant: a read that reaches EOF without error returned bytes whose independent CRC-32 equals crc32() (encrypted AE-2 entries exempt); flipped stored data / CRC must fail.",
+  "Independent CRC-32; AE-2 exemption applies only to entries that are actually AES-encrypted. Seeds are small; large-entry tampering of AES is C16's.",
+  "DESIGN.md §4 C04")
+CHECKS["C05"] = ("fault_enumeration",
+  "crash-point and byte-substitution enumeration + proptest havoc + structure-aware hostile specs through every reader entry point, with panic capture, I/O-call budget and a counting allocator; supervisor process diagnoses aborts",
+  "Every truncation point of the seeds and repository fixtures; every one of the 255 substitute values at every byte outside entry data of 7 (quick) / all seeds; 20k random multi-site edits; 30k structure-aware archives whose header fields are set to boundary values (0, 1, 2^16, 2^32, 2^63, 2^64-1, +-1) incl. AES extras with/without the flag, method 99, short encrypted entries. Each input is opened by ZipArchive::new (+ all accessors, by_index/_raw/_decrypt, by_name/_decrypt, capped reads), read_zipfile_from_stream (none/partial/full consumption), ZipStreamReader::visit and ZipWriter::new_append (+finish, +drop). No panic/abort; I/O calls while opening <= 16*len+1e6; heap while opening <= 512*len+2MiB.",
+  "Reads capped at 1 MiB/entry; memory = Rust heap of the opening thread. A loop that never touches the stream would only trip the watchdog (exit 2). Absence of crashes is not shown, only not found.",
+  "DESIGN.md §4 C05")
+CHECKS["C07"] = ("exploration",
+  "proptest archives from safe and hostile name pools extracted into a nested sandbox; oracle = recursive filesystem snapshot diff + tree model",
+  "Archives built by the independent builder with names from a safe pool and a hostile pool ('..' chains, absolute paths into a disposable canary location, NUL, backslashes, './..' prefixes, duplicates, file/dir conflicts, symlink-typed entries) are extracted by ZipArchive::extract and ZipStreamReader::extract into a 12-level nested sandbox. Everything outside the target must be unchanged (type, mode, content hash); unsafe names must yield Err; safe archives must yield exactly the modelled tree with contents and mode & 0o777.",
+  "Unix host; runs as root in the sandbox (permission bits are compared, not enforced). Hostile names cannot leave the sandbox by construction.",
+  "DESIGN.md §4 C07")
+CHECKS["C08"] = ("exploration",
+  "boundary-value grid on a sparse in-memory sink judged by the independent strict parser, the crate reader and CPython zipfile; exhaustive product of foreign ZIP64 field subsets",
+  "Header offsets / start positions / central-directory offsets on {2^32-2..2^32+1}; stored and deflated zero-run entries of 2^32-2 .. 5 GiB with and without large_file (quick: 4 GiB+1; thorough: full grid) written through the crate into a 64 KiB-page sparse file, recovered by the independent parser, by the crate reader (every byte read back, independent zero-run CRC) and by CPython on a hole-punched copy; > 4 GiB without large_file must fail for good; 65534..65537 (..131072) entries; all 2^3 forced-ZIP64 subsets x order x local ZIP64 x descriptors x 9 end-record masks x prefix from the independent builder; hand-laid-out foreign archives with > 4 GiB entries; append onto such a base.",
+  "Central directory size >= 4 GiB and compressed > 4 GiB with uncompressed < 4 GiB are not realisable in the sandbox (stated in DESIGN.md). A grid of boundary values, not a sweep.",
+  "DESIGN.md §4 C08")
+CHECKS["C09"] = ("exploration",
+  "differential: harness-owned short-read / short-write schedules (uniform 1..64, one cut at every byte position, random, BufReader) vs. the unchunked run",
+  "Every seed archive (all methods, ZipCrypto, AES) x uniform chunk 1..64 x {direct, BufReader 1/7/64/4096} x caller-buffer schedules, and ONE short read at EVERY byte position, through the seekable and streaming readers (incl. partial consumption), must give identical metadata, bytes and error-ness to a plain Cursor read; zero-length reads return 0 and reads after EOF return 0. Writer: generated programs into sinks accepting short writes must produce identical bytes; splitting the caller's writes must give identical decoded entries.",
+  "Schedules are owned by the harness (instrumented Read/Write wrappers), so 'every chunking' is an enumerable input.",
+  "DESIGN.md §4 C09")
+CHECKS["C10"] = ("exploration",
+  "differential streaming vs seekable reader over generated archives, consumption patterns and short-read streams; visitor call-sequence model",
+  "Crate-written archives (no encryption; incl. large_file, extra data, aligned) and contiguous foreign archives are read front-to-back from a non-seekable chunked stream with per-entry consumption from {0,1,k,all-1,all,half,random}: names, sizes, methods, timestamps, CRC and content prefixes must equal the seekable reader's, followed by end-of-entries; the visitor must call visit_file once per entry in order, then visit_additional_metadata once per entry in order with the central name/comment/mode. Encrypted and data-descriptor entries must produce an error at that entry.",
+  "Archives with >= 1 entry, central order == physical order (as the property states).",
+  "DESIGN.md §4 C10")
+CHECKS["C11"] = ("fault_enumeration",
+  "exhaustive fault injection: for each generated scenario the I/O failure is injected at every I/O call index (one-shot and sticky) through an instrumented stream; oracle = no panic + (error reported or result identical to the failure-free run)",
+  "Reader scenarios (open + read all entries of seed and generated archives incl. ZIP64, ZipCrypto, AES and nested archives; seekable and streaming) and writer scenarios (generated programs with all entry kinds, extra data, aligned, ZipCrypto, optional append base, raw copies, finish or drop) are run failure-free under a counting stream and then once per I/O call index k with a hard error at k on read/write/flush/seek; remaining calls, finish(), a second finish() and drop are still issued. ~26k fault runs in quick.",
+  "Streaming reader: one-shot faults only (a sticky failure reaches the documented panic in the drop-time drain, which is not a Result-returning call). Drop-completed writers: only the no-panic clause.",
+  "DESIGN.md §4 C11")
+CHECKS["C12"] = ("exploration",
+  "model-based testing: exhaustive enumeration of all call sequences up to depth 4 (quick) / 6 (thorough) over a 17-letter writer alphabet + proptest sequences up to 200 calls, against an executable model of the documented state machine",
+  "Every call's outcome is compared with the model (Ok / Err / unspecified), no call may panic, and whenever finish() succeeds on a history without unspecified steps the archive must parse strictly and hold exactly the successfully created entries with exactly the accepted bytes (raw copies: source content), as seen by the independent parser and the crate reader.",
+  "Undocumented-but-accepted inputs are 'either outcome, no panic'. The encryption option is exercised as start_file+write only.",
+  "DESIGN.md §4 C12, §5 state table")
+CHECKS["C13"] = ("exploration",
+  "model-based histories: base archive x 0..4 (8) append rounds, compared after every round with a reference model by the crate reader and the independent lenient parser",
+  "Bases from the crate's writer and from the independent builder (data descriptors, forced ZIP64, prefix, CP437 names, DOS attributes, file comments, unsupported methods, shuffled order, gaps); each round appends 0..3 entries of any kind, optionally changes the comment, and completes by finish or drop. After every round: previous entries unchanged (name, content, method, timestamp, mode), new ones appended, comment kept unless replaced.",
+  "File comments/extra fields of old entries are outside the claim. One open known finding (stale end record when the rewritten archive is shorter) is excluded by signature; the archive proper is still fully checked.",
+  "DESIGN.md §4 C13")
+CHECKS["C14"] = ("exploration",
+  "differential raw copy: generated source archives (both producers, short-read source readers) x destination programs interleaving copies with ordinary entries",
+  "Destination by_index_raw bytes == source raw bytes; method, CRC, sizes and DOS timestamp words equal; permission bits equal when the source states a mode; decoded content equal where decodable; normally written neighbours intact; strict parse of the destination.",
+  "Encrypted sources excluded (property: unencrypted entry). A source mode of exactly 0 states nothing.",
+  "DESIGN.md §4 C14")
+CHECKS["C15"] = ("exploration",
+  "round trip + differential against an independent PKWARE cipher implementation, CPython and unzip; exhaustive over the 256 check-byte values",
+  "Entries written with a password (all password classes, methods, contents, positions, ASCII and non-ASCII names) are decrypted by an independent implementation and by CPython/unzip; same password reads back, none -> password-required, other password -> rejected or read error; foreign entries (CRC and Info-ZIP time check bytes, data descriptors) decrypt; for each of the 256 possible check bytes x 2 variants a fixed wrong password is rejected up front exactly when its decrypted check byte differs.",
+  "Independent cipher self-tested; CPython/unzip used for non-empty ASCII passwords, non-zstd.",
+  "DESIGN.md §4 C15")
+CHECKS["C16"] = ("exploration",
+  "independent WinZip-AES encryptor (own AES, SHA-1, HMAC, PBKDF2) as producer; exhaustive single-bit tampering of small entries; random tampering of large ones",
+  "All (AE-1/AE-2) x (128/192/256) x inner method x content-length classes x password classes: right password -> exact bytes under varied caller buffers; none -> password-required; wrong -> rejected or read error; CRC enforced for AE-1, ignored for AE-2. EVERY single-bit flip of salt, verifier, ciphertext and MAC of 144 small entries must make opening or reading fail; random flips in 40-700 KiB entries.",
+  "Primitives validated against FIPS-197 / RFC 2202 / RFC 6070 vectors in setup. One open known finding (AE-2 + compressing method + > 32 KiB ciphertext) excluded by exact signature.",
+  "DESIGN.md §4 C16")
+CHECKS["C17"] = ("exploration",
+  "grid + proptest over alignments, preceding offsets and extra-data record lists, judged by the independent parser and the reader (thorough: all 65536 alignments)",
+  "Alignment values x preceding offsets (targeted residues so the padding record is 0, 4, ... bytes or lands next to the 16-bit limit) x large_file: data offset is a multiple of the alignment in the bytes and as reported by the reader, returned padding size is right, content round-trips, neighbours intact, alignments <= 32768 succeed, unrepresentable padding is refused. Extra data: valid record lists stored verbatim (local after the writer's own ZIP64 record, central returned by extra_data()); truncated records, the ZIP64 ID, reserved IDs and oversize data are refused.",
+  "Reserved IDs = 0..31 + APPNOTE-registered list (copied from APPNOTE, also used by the crate).",
+  "DESIGN.md §4 C17")
+CHECKS["C20"] = ("exploration",
+  "exhaustive enumeration of API-level interleavings of per-handle scripts on one thread vs. the script run alone; multi-thread stress with generated orders/yields; compile-time Send/Sync build probe",
+  "2-3 clones x generated scripts {open by index/name, read k, read to end, close}: every interleaving (<= 1680 per script set; ~13k per quick run) must give each handle exactly the observations of the same script on an archive used alone. Fresh archive x N in {2,4,8,16} OS threads released from a barrier, shared-prefix orders, by index and by name. A probe crate compiles only if ZipArchive<R>: Send + Sync for R: Send + Sync.",
+  "OS thread schedules are sampled, not enumerated; the single-thread enumeration is the deciding part. Send/Sync is observed by a build probe (not generated inputs) because it is a compile-time fact.",
+  "DESIGN.md §4 C20")
 PENDING = {}
 props = [json.loads(l) for l in open(os.path.join(ROOT, "properties.jsonl"))]
 checks = []
